@@ -5,6 +5,7 @@ package http1
 // body drained before the next request is read.
 
 import (
+	"errors"
 	"fmt"
 	"io"
 
@@ -69,6 +70,41 @@ func (r *segReader) Read(p []byte) (int, error) {
 	return n, nil
 }
 
+var (
+	errBodyExceedsInput = errors.New("harness: body reader returned more bytes than the connection carried")
+	errReadNoProgress   = errors.New("harness: body reader keeps returning (0, nil)")
+)
+
+// drain reads r to EOF with a read size derived from the case (so different
+// clamp paths are exercised). It never loops forever: a body longer than the
+// whole input or 1000 consecutive empty reads are returned as sentinel errors
+// (count based, no clock).
+func drain(r io.Reader, inputLen int) ([]byte, error) {
+	tmp := make([]byte, []int{512, 1, 7, 4096, 3, 64}[inputLen%6])
+	var out []byte
+	empty := 0
+	for {
+		n, err := r.Read(tmp)
+		out = append(out, tmp[:n]...)
+		if len(out) > inputLen {
+			return out, errBodyExceedsInput
+		}
+		if err == io.EOF {
+			return out, nil
+		}
+		if err != nil {
+			return out, err
+		}
+		if n == 0 {
+			if empty++; empty > 1000 {
+				return out, errReadNoProgress
+			}
+		} else {
+			empty = 0
+		}
+	}
+}
+
 type bfeConn struct {
 	sr *segReader
 	br *bfe_bufio.Reader
@@ -105,7 +141,7 @@ func (c *bfeConn) next() (r *bfeReq, err error, panicVal any) {
 		}
 		var body []byte
 		if req.Body != nil {
-			body, err = io.ReadAll(req.Body)
+			body, err = drain(req.Body, len(c.sr.s))
 			if err != nil {
 				err = fmt.Errorf("body: %w", err)
 				return
@@ -128,7 +164,7 @@ func (c *bfeConn) nextResponse() (body []byte, end int, err error, panicVal any)
 		if err != nil {
 			return
 		}
-		body, err = io.ReadAll(resp.Body)
+		body, err = drain(resp.Body, len(c.sr.s))
 		if err != nil {
 			err = fmt.Errorf("body: %w", err)
 			return
